@@ -10,3 +10,16 @@ func VerifResetGlobals() {
 	globalL1CacheRegistry = make(map[sop.L2CacheType]*L1Cache)
 	globalL1Locker.Unlock()
 }
+
+// VerifSwapGlobals installs m as the process-wide L1 cache registry and returns the one
+// that was installed: harnesses keep one registry per modelled OS process.
+func VerifSwapGlobals(m map[sop.L2CacheType]*L1Cache) map[sop.L2CacheType]*L1Cache {
+	globalL1Locker.Lock()
+	defer globalL1Locker.Unlock()
+	old := globalL1CacheRegistry
+	if m == nil {
+		m = make(map[sop.L2CacheType]*L1Cache)
+	}
+	globalL1CacheRegistry = m
+	return old
+}
